@@ -1203,9 +1203,9 @@ func selfTest() error {
 	if m != 1 || r != 1 || w != 1 || a != 1 {
 		return fmt.Errorf("goroutine profile of one live connection: handleConn=%d readloop=%d writeloop=%d Serve=%d (expected 1 each): the function names the leak oracles look for no longer match the library", m, r, w, a)
 	}
-	if ts.w.pointCount("srv.accept.beforeAdd") != 1 || ts.w.pointCount("srv.read.beforeRx") != 1 ||
-		ts.w.pointCount("srv.beforeSend") != 1 || ts.w.pointCount("srv.send.loaded") != 1 {
-		return fmt.Errorf("yield points seen while serving one request: %v (expected accept.beforeAdd, read.beforeRx, beforeSend, send.loaded once each)", ts.w.points())
+	if ts.w.pointCount("srv.accept.beforeAdd") < 1 || ts.w.pointCount("srv.read.beforeRx") < 1 ||
+		ts.w.pointCount("srv.beforeSend") < 1 || ts.w.pointCount("srv.send.loaded") < 1 {
+		return fmt.Errorf("yield points seen while serving one request: %v (expected accept.beforeAdd, read.beforeRx, beforeSend, send.loaded at least once each)", ts.w.points())
 	}
 	if u := ts.w.unresolved.Load(); u != 0 {
 		return fmt.Errorf("%d yield points passed an object that could not be mapped to the harness connection (fields stream/inner of kmipserver.conn changed?)", u)
